@@ -13,7 +13,10 @@ BOHR = 0.5291772108
 _T = None
 
 
-def table(repo_src="/repo/src"):
+def table(repo_src=None):
+    from mc.paths import REPO_SRC
+
+    repo_src = repo_src or REPO_SRC
     global _T
     if _T is None:
         d = np.load(os.path.join(repo_src, "chmpy", "interpolate", "thakkar_interp.npz"))
